@@ -14,6 +14,7 @@ mutability or unsafe code. Decided (structural, for every program, schedule and 
  * forks clone: decided under C06 (K4); State is not Copy (witness, thorough tier).
  (round 4, shared) the disjunction builders are total folds from `fail` (a `succeed` seed adds a
    phantom branch, a swapped operand drops one).
+ (round 5, shared) Conde keeps one branch per written clause (empty clause included).
 """
 import hirwalk
 import mutaudit
@@ -112,6 +113,10 @@ def check_union(ctx, lib):
     import builders
 
     builders.check_all(ctx, lib, R + "K6.builders")
+    # conde keeps one branch per written clause, the empty clause `[]` (= succeed once) included
+    import C13
+
+    C13.check_conde_builder(ctx, lib, R + "K6.conde-builder")
 
 
 def run_once(ctx, tier):
